@@ -14,6 +14,12 @@ C={
   "Generated TTL-heavy histories with the clock frozen at expiry-1/expiry/expiry+1 ms; every frame that no retention rule can have touched must be returned by every path after every step (three-valued model for asynchronous GC). Sampling, not proof.",HIST_NOTE),
  "C09":("exploration","model-based history testing, three-valued retention model, frozen virtual clock, tail follower",
   "Generated TTL-heavy histories; ephemeral frames reach the open follower and are never stored, expired frames never appear in stream reads and are gone after read+drain, head:N topics hold at most the N newest after a drain. Sampling, not proof.",HIST_NOTE),
+ "C12":("exploration","round-trip and differential (harness-owned grammar/decoder) property testing in-process + end-to-end histories with the full meta domain",
+  "Hundreds of thousands of generated values per run: every TTL through query-string, JSON and parse_ttl against the documented spellings; near-grammar TTL strings against a harness-owned grammar; every ReadOptions value through the client's query encoder into the server's parser, compared field by field; malformed option strings must be rejected; Frame values (unicode topics, sha1/256/512 and multi-hash integrity, floats by bit pattern, huge integers, nesting to 130) value->JSON->value and hand-built import JSON->value. Plus end-to-end histories (Store API, xs-meta header, POST /import) with the same meta domain followed by get/reads/reopen against the reference model. Sampling, not proof.",
+  "trusts serde_json's printer; metas nested deeper than 100 may be refused by xs (then must leave no trace) or accepted (then must read back)"),
+ "C20":("exploration","differential testing: same observation queries on source and import target, plus reference model on each store",
+  "Generated source histories are exported (all-contexts read + contents) and imported into a fresh store through the Store API or POST /cas + POST /import in a generated permutation with duplicates and unstorable frames mixed in, optionally killing and reopening the target; all streams, every by-id lookup, heads for topics x contexts, every content and per-context probe appends are then compared between source and target directly. Sampling, not proof.",
+  HIST_NOTE+"; the xs.nu .export/.import scripts themselves are not executed (no nu binary): the same HTTP endpoints are driven directly"),
  "C13":("exploration","model-based request-sequence testing over raw HTTP/1.1 against the reference model, plus refused-request grammar",
   "Generated request sequences over every route, written as raw bytes to the unix socket by a hand-written client (so 'no response' is observable): valid operations are checked against the same reference model as the Store API (NDJSON and SSE renderings decoded field by field), requests that must be refused (bad ids/TTLs/contexts/xs-meta/options/hashes/import bodies/methods) must get a 4xx, change nothing (full store comparison through the Store API) and leave GET /version answering. Sampling, not proof.",
   HIST_NOTE+"; path topics are drawn from URL-unreserved characters (the API does not percent-decode); one known finding (500 instead of 4xx when the store refuses a frame) is tolerated by exact signature"),
